@@ -601,6 +601,11 @@ func (m *machine) assertCond(c value, label string, pos string) {
 	}
 	// continue under the assumption that the assertion held
 	if ct.IsFalse() {
+		if r != Sat && len(classes) > 0 {
+			// concretely false but entirely inside known classes: keep going so that
+			// later assertions on this path are still examined
+			return
+		}
 		m.abort("violation-stop", label)
 	}
 	if r == Sat || len(classes) > 0 {
